@@ -106,6 +106,11 @@ class PathExec(object):
       return self.assume[t]
     if t == ('call', 'float', ('const', 'inf')):
       return ('const', float('inf'))
+    if t[0] == 'call' and t[1] == 'bool' and len(t) == 3:
+      inner = self._norm(t[2])
+      if isinstance(inner, tuple) and inner[0] == 'const':
+        return ('const', bool(inner[1]))
+      return ('call', 'bool', inner)
     if t[0] == 'binop' and len(t) == 4:
       l, r = self._norm(t[2]), self._norm(t[3])
       if isinstance(l, tuple) and isinstance(r, tuple) and l[0] == 'const' and r[0] == 'const' and \
